@@ -197,7 +197,8 @@ def run_case(case):
                         (hg * wp * (g['t_duct'][ai] - g['T0'][adj - 1]))[nz]))
                     sc = dz * float(np.sum(np.abs(w * h_d * (ts - rec['t_gap']
                                                              )))) \
-                        + FLOOR * dz * float(np.sum(w * h_d)) * 1e-3
+                        + 1e-6 * dz * float(np.sum(w * h_d)) * float(
+                            np.mean(np.abs(ts)))
                     res.close('J1_asm_mesh_vs_gap_mesh', q_asm - q_gap, sc,
                               TOL, 'heat leaving the assembly on its duct '
                               'mesh != heat credited on the gap mesh',
